@@ -30,7 +30,7 @@ func H_TD_C15_directory() {
 			x := gldap.VSearchExchange(1, DefaultUserDN, "("+vUserRDN[0]+")")
 			d.handleSearchUsers(vT{})(x.W, x.Req)
 		case 2:
-			x := gldap.VAddExchange(1, vUserPool[1], []string{"mail"}, [][]string{{"m"}})
+			x := gldap.VAddExchange(1, "cn=carol,ou=people,dc=example,dc=org", []string{"mail"}, [][]string{{"m"}})
 			d.handleAdd(vT{})(x.W, x.Req)
 		case 3:
 			x := gldap.VModifyExchange(1, vUserPool[0], 0, "mail", []string{"m"})
@@ -86,12 +86,14 @@ func H_TD_C15_pair() {
 	pwAttr := gldap.NewEntryAttribute("password", []string{"pw"})
 	mailAttr := gldap.NewEntryAttribute("mail", []string{"m0"})
 	u0 := &gldap.Entry{DN: vUserPool[0], Attributes: []*gldap.EntryAttribute{pwAttr, mailAttr}}
-	d.users = []*gldap.Entry{u0}
+	u1 := &gldap.Entry{DN: vUserPool[1], Attributes: []*gldap.EntryAttribute{gldap.NewEntryAttribute("password", []string{"pw1"})}}
+	d.users = []*gldap.Entry{u0, u1}
 	gldap.VTrack(d, "dir")
+	gldap.VTrackElems(d.users, "dir.users") // the list's element cells (a delete shifts them in place)
 	gldap.VTrack(u0, "user0")
 	gldap.VTrack(pwAttr, "user0.password")
 	gldap.VTrack(mailAttr, "user0.mail")
-	reader := gldap.VLen("reader", 1)
+	reader := gldap.VLen("reader", 2)
 	go func() {
 		switch reader {
 		case 0:
@@ -99,6 +101,9 @@ func H_TD_C15_pair() {
 			d.handleSearchUsers(vT{})(x.W, x.Req)
 		case 1:
 			x := gldap.VBindExchange(1, vUserPool[0], "pw")
+			d.handleBind(vT{})(x.W, x.Req)
+		case 2:
+			x := gldap.VBindExchange(1, vUserPool[1], "pw1") // a user stored after the one being deleted
 			d.handleBind(vT{})(x.W, x.Req)
 		}
 		gldap.VEvent("reader done")
